@@ -38,6 +38,7 @@ type flabOp struct {
 	A int    `json:"a,omitempty"` // one-way latency, ms
 	B int    `json:"b,omitempty"` // peer's ack delay, ms
 	C int    `json:"c,omitempty"` // 1: the peer's ACK for this datagram is lost
+	D int    `json:"d,omitempty"` // >0: that many ms after this datagram was sent, a PING-only Initial packet of the peer arrives
 }
 
 type flabFrame struct {
@@ -88,8 +89,9 @@ type flabCHSpec struct {
 	NExt   int    `json:"next,omitempty"`
 	SID    int    `json:"sid,omitempty"`
 	NCS    int    `json:"ncs,omitempty"`
-	Parts  []int  `json:"parts,omitempty"` // sizes of the Write calls (the rest goes into a last one)
-	Len2   int    `json:"len2,omitempty"`  // >0: the peer answers with a HelloRetryRequest and the TLS stack writes a second ClientHello of about this length
+	Parts  []int  `json:"parts,omitempty"`   // sizes of the Write calls (the rest goes into a last one)
+	Len2   int    `json:"len2,omitempty"`    // >0: the peer answers with a HelloRetryRequest and the TLS stack writes a second ClientHello of about this length
+	HRRDly int    `json:"hrr_dly,omitempty"` // ms the peer takes to produce the HelloRetryRequest
 }
 
 type flabSpec struct {
@@ -110,6 +112,8 @@ type flabScenario struct {
 	Class    string     `json:"class"` // "valid": every error is a violation; otherwise the reason why the configuration may be rejected
 	Lossy    bool       `json:"lossy"`
 	PeerPing bool       `json:"peer_ping,omitempty"` // the peer's ACKs travel with a PING, so the client has something to acknowledge
+	LagMs    int        `json:"lag_ms,omitempty"`    // the client's event loop is sometimes this late (busy process), so that
+	LagPct   int        `json:"lag_pct,omitempty"`   // several things are due at once; percentage of wake-ups affected
 	MaxSize  int        `json:"max_size"`
 	DCID     int        `json:"dcid"`
 	SCID     int        `json:"scid"`
@@ -118,6 +122,11 @@ type flabScenario struct {
 	CH       flabCHSpec `json:"ch"`
 	Spec     flabSpec   `json:"spec"`
 	Ops      []flabOp   `json:"ops"`
+	Inject   []flabInj  `json:"inject,omitempty"` // PING-only Initial packets of the peer arriving at fixed times
+}
+
+type flabInj struct {
+	At int `json:"at"` // ms after the start
 }
 
 func (s *flabScenario) KSeed() uint64 { return s.Seed }
@@ -521,6 +530,9 @@ func flabGen(seed uint64, tier string) KScenario {
 	}
 	sc.Lossy = r.P(0.5)
 	sc.PeerPing = r.P(0.25)
+	if sc.Lossy && r.P(0.4) {
+		sc.LagMs, sc.LagPct = r.Pick(1, 5, 30, 120, 400, 1000), r.Pick(10, 30, 60, 100)
+	}
 	sc.MaxSize = r.Pick(1200, 1200, 1252, 1280, 1350)
 	sc.DCID = r.Pick(8, 8, 8, 12, 20)
 	sc.SCID = r.Pick(0, 0, 4, 8, 20)
@@ -590,6 +602,7 @@ func flabGen(seed uint64, tier string) KScenario {
 	}
 	if L > 0 && r.P(0.15) {
 		ch.Len2 = r.Pick(r.Range(1, 300), r.Range(100, capacity), r.Range(capacity, 2*capacity))
+		ch.HRRDly = r.Pick(0, 0, 50, 300, 1000, 3000)
 	}
 	L = len(flabBuildCH(ch)) // the structured form may be longer than the target
 
@@ -742,7 +755,15 @@ func flabGen(seed uint64, tier string) KScenario {
 			if r.P(0.2) {
 				op.C = 1
 			}
+			if r.P(0.15) {
+				op.D = r.Pick(1, 30, 100, 200, 300, 600, 1000)
+			}
 			sc.Ops = append(sc.Ops, op)
+		}
+		if r.P(0.3) {
+			for n := r.Range(1, 5); n > 0; n-- {
+				sc.Inject = append(sc.Inject, flabInj{At: r.Pick(r.Range(1, 400), r.Range(1, 4000))})
+			}
 		}
 	}
 	return sc
@@ -1038,6 +1059,7 @@ type flabEvt struct {
 	at     time.Time
 	seq    int
 	isAck  bool
+	ping   bool // a PING-only Initial packet of the peer
 	hrr    bool
 	dg     *flabDgram
 	ranges []wire.AckRange
@@ -1360,6 +1382,9 @@ func (l *flabLab) emit(pkt *coalescedPacket, now monotime.Time, what string) {
 		l.cleanSent++
 	}
 	lat := time.Duration(max(op.A, 1)) * time.Millisecond
+	if op.D > 0 {
+		l.push(flabEvt{at: time.Now().Add(time.Duration(op.D) * time.Millisecond), isAck: true, ping: true})
+	}
 	ev := flabEvt{at: time.Now().Add(lat), dg: dg, noAck: op.C == 1, ackDly: time.Duration(op.B) * time.Millisecond}
 	switch op.K {
 	case "drop":
@@ -1754,13 +1779,25 @@ func (l *flabLab) peerReceive(ev flabEvt) {
 			ranges = append(ranges, wire.AckRange{Smallest: p, Largest: p})
 		}
 	}
-	l.push(flabEvt{at: time.Now().Add(ev.ackDly + 10*time.Millisecond), isAck: true, hrr: hrr, ranges: ranges, delay: ev.ackDly})
+	dly := ev.ackDly
+	if hrr {
+		dly += time.Duration(l.sc.CH.HRRDly) * time.Millisecond
+	}
+	l.push(flabEvt{at: time.Now().Add(dly + 10*time.Millisecond), isAck: true, hrr: hrr, ranges: ranges, delay: ev.ackDly})
 }
 
 func (l *flabLab) clientReceiveAck(ev flabEvt) {
 	now := monotime.Now()
 	l.progressed = true
 	l.sph.ReceivedPacket(protocol.EncryptionInitial, now)
+	if ev.ping {
+		l.res.Fault("peer-ping-packet")
+		l.acks.pending = true
+		l.acks.largest = protocol.PacketNumber(l.peerPkts)
+		l.peerPkts++
+		l.shape.WriteString("p")
+		return
+	}
 	ack := &wire.AckFrame{AckRanges: ev.ranges, DelayTime: ev.delay}
 	if _, err := l.sph.ReceivedAck(ack, protocol.EncryptionInitial, now); err != nil {
 		l.fail("lab: honest ACK rejected by the ack handler", "%v: %v", ev.ranges, err)
@@ -1791,6 +1828,9 @@ func (l *flabLab) clientReceiveAck(ev flabEvt) {
 }
 
 func (l *flabLab) run() {
+	for _, in := range l.sc.Inject {
+		l.push(flabEvt{at: time.Now().Add(time.Duration(max(in.At, 1)) * time.Millisecond), isAck: true, ping: true})
+	}
 	l.clientStep()
 	if l.ended {
 		return
@@ -1851,6 +1891,10 @@ func (l *flabLab) run() {
 			time.Sleep(time.Millisecond)
 		}
 		lastDgrams, lastEvents = l.nDgrams, len(l.events)
+		if l.sc.LagMs > 0 && int(KMix(l.sc.Seed, 99, uint64(iter))%100) < l.sc.LagPct {
+			time.Sleep(time.Duration(l.sc.LagMs) * time.Millisecond)
+			l.res.Fault("client-event-loop-late")
+		}
 		nowT = time.Now()
 		// deliver what is due, in order
 		for {
